@@ -100,7 +100,7 @@ fn member_names(v: &Value, out: &mut Vec<String>) {
 }
 
 fn plain(base: Base, fmt: Fmt) -> Case {
-    Case { base, faults: vec![], wire: vec![], fmt, session: None, resolver: Resolver::Directory, kb_enc: KbEnc::Absent, extra: vec![], expand: None, hold_s: 0, escapes: false }
+    Case { base, faults: vec![], wire: vec![], fmt, session: None, resolver: Resolver::Directory, kb_enc: KbEnc::Absent, extra: vec![], expand: None, hold_s: 0, escapes: false, extra_raw: None }
 }
 
 fn rand_char(rng: &mut Rng) -> char {
@@ -244,6 +244,44 @@ pub fn gen_c03(rng: &mut Rng, tier: Tier) -> MsgScn {
         }
         cases.push(c);
     }
+    let mut creds = creds;
+    let mut pres = pres;
+    // what an honest issuer would sign if its entropy source repeated a salt: two equal hidden
+    // members (same name, same value) share one disclosure, so one digest sits at two places
+    if rng.chance(1, 5) {
+        let ci = creds.len();
+        creds.push(CredSpec::Byz {
+            issuer: 0,
+            typ: None,
+            payload: json!({"_sd_alg": "sha-256", "iss": issuers[0].iss, "exp": now + 86400, "home": {"_sd": ["@0"], "street": "a"}, "work": {"_sd": ["@0"], "street": "b"}, "list": [{"...": "@1"}, {"...": "@1"}]}),
+            disclosures: vec![json!(["cmVwZWF0ZWQtc2FsdC0wMQ", "country", "DE"]).to_string(), json!(["cmVwZWF0ZWQtc2FsdC0wMg", "same"]).to_string()],
+        });
+        for picks in [vec![0usize], vec![1], vec![0, 1], vec![1, 0]] {
+            let pi = pres.len();
+            pres.push(PresSpec::Direct { cred: ci, picks });
+            cases.push(plain(Base::Pres(pi), rand_fmt(rng)));
+        }
+    }
+    // a very deep credential (every level hidden in the level above): far beyond the fixtures
+    if rng.chance(1, 40) {
+        let depth = 100 + rng.usize(70);
+        let mut v = json!({"leaf": "bottom"});
+        for i in 0..depth {
+            v = if i % 5 == 4 { json!({"l": [v, i]}) } else { json!({"l": v, "i": i}) };
+        }
+        let mut m = v.as_object().cloned().unwrap_or_default();
+        m.insert("iss".into(), json!(issuers[0].iss));
+        m.insert("exp".into(), json!(now + 86400));
+        let ci = creds.len();
+        creds.push(CredSpec::Honest { issuer: 0, claims: Value::Object(m), strat: Strat::All, holder_key: None, decoys: rng.bool(), fmt: rand_fmt(rng) });
+        cases.push(plain(Base::Cred(ci), rand_fmt(rng)));
+        let mut c = plain(Base::Cred(ci), rand_fmt(rng));
+        c.faults.push(Fault::ReverseDisclosures);
+        cases.push(c);
+        let mut c = plain(Base::Cred(ci), rand_fmt(rng));
+        c.faults.push(Fault::DropDisclosure(rng.usize(200)));
+        cases.push(c);
+    }
     MsgScn { kind: "msg".into(), check: "C03".into(), entropy_seed: rng.next_u64(), clock_base: now, issuers, creds, pres, cases }
 }
 
@@ -319,6 +357,35 @@ pub fn gen_c02(rng: &mut Rng, tier: Tier) -> MsgScn {
             let mut c = plain(if rng.bool() { Base::Cred(0) } else { Base::Pres(0) }, rand_fmt(rng));
             c.faults.push(Fault::ByzPayload { edit: PayloadEdit::SetClaim("iss".into(), json!(claimed)), key: atk.to_string(), alg: crate::keys::alg_of(atk).to_string() });
             cases.push(c);
+        }
+    }
+    // a disclosure smuggled into a JWT member of the JSON envelope behind a '~'
+    for part in [Part::S, Part::P, Part::H] {
+        if rng.bool() {
+            let mut c = plain(if rng.bool() { Base::Cred(0) } else { Base::Pres(0) }, Fmt::Json);
+            c.faults.push(Fault::MoveDisclosureIntoPart { part, i: rng.usize(8) });
+            cases.push(c);
+        }
+    }
+    // issuer I0 signs a payload with NO clear-text iss: the issuer name only appears in disclosures —
+    // a genuine hidden one naming I1 and an orphan one (referenced by no digest) naming I0
+    let mut creds = creds;
+    let mut pres = pres;
+    {
+        let hidden_iss_cred = creds.len();
+        creds.push(CredSpec::Byz {
+            issuer: 0,
+            typ: None,
+            payload: json!({"_sd": ["@0"], "_sd_alg": "sha-256", "exp": now + 86400, "name": "x"}),
+            disclosures: vec![json!(["c2FsdC1oaWRkZW4taXNz", "iss", iss[1].iss]).to_string()],
+        });
+        let pi = pres.len();
+        pres.push(PresSpec::Direct { cred: hidden_iss_cred, picks: vec![0] });
+        for f in [Fmt::Compact, Fmt::Json] {
+            let mut c = plain(Base::Pres(pi), f);
+            c.faults.push(Fault::ForgeDisclosure { arity: 3, name: "iss".into(), value: json!(iss[0].iss), at: 0 });
+            cases.push(c);
+            cases.push(plain(Base::Pres(pi), f));
         }
     }
     let main = if rng.bool() { Base::Pres(0) } else { Base::Cred(0) };
@@ -427,7 +494,19 @@ pub fn gen_c04(rng: &mut Rng, tier: Tier) -> MsgScn {
         };
         CredSpec::Honest { issuer, claims, strat, holder_key: hk, decoys: rng.bool(), fmt: rand_fmt(rng) }
     };
-    let creds = vec![mk(rng, 0, Some(hk0.clone())), mk(rng, 0, Some(hk0.clone())), mk(rng, 1, Some(hk2.clone())), mk(rng, 0, None)];
+    let mut creds = vec![mk(rng, 0, Some(hk0.clone())), mk(rng, 0, Some(hk0.clone())), mk(rng, 1, Some(hk2.clone())), mk(rng, 0, None)];
+    // a credential whose confirmation claim was supplied by the caller in another RFC 7800 shape
+    // (key id, thumbprint …) and carries no key: nobody can be key-bound to it
+    {
+        let mut c = mk(rng, 0, None);
+        if let CredSpec::Honest { claims, strat, .. } = &mut c {
+            if let Some(o) = claims.as_object_mut() {
+                o.insert("cnf".into(), rng.pick(&[json!({"kid": "holder-key-1"}), json!({"jkt": "NzbLsXh8uDCcd-6MNwXF4W_7noWXFZAfHkxZsRGC9Xs"}), json!({"kid": "holder-key-1", "jku": "https://example.org/keys"})]).clone());
+            }
+            *strat = Strat::None;
+        }
+        creds.push(c);
+    }
     let s1 = (gen::gen_session_string(rng), gen::gen_session_string(rng));
     let s2 = (format!("{}-2", s1.0), format!("{}-2", s1.1));
     let kb = |rng: &mut Rng, s: &(String, String), k: &str| Some(KbArgs { aud: s.0.clone(), nonce: s.1.clone(), key: k.to_string(), alg: kb_alg_for(rng, k) });
@@ -440,6 +519,7 @@ pub fn gen_c04(rng: &mut Rng, tier: Tier) -> MsgScn {
         PresSpec::Holder { cred: 2, selection: sel(rng, &creds[2], 800), kb: kb(rng, &s1, &hk2) }, // p3 other holder
         PresSpec::Holder { cred: 3, selection: sel(rng, &creds[3], 800), kb: None },               // p4 credential without cnf
         PresSpec::Holder { cred: 0, selection: sel(rng, &creds[0], 900), kb: None },               // p5 bound credential, no KB-JWT
+        PresSpec::Holder { cred: 4, selection: Map::new(), kb: None },                              // p6 credential with cnf.kid only
     ];
     let nc = creds.len();
     let tok = |p: usize| nc + p;
@@ -493,7 +573,7 @@ pub fn gen_c04(rng: &mut Rng, tier: Tier) -> MsgScn {
                     None
                 } else {
                     Some(match field {
-                        KbField::Typ => json!(rng.pick(&["JWT", "kb-jwt", "KB+JWT", "sd+jwt", ""]).to_string()),
+                        KbField::Typ => json!(rng.pick(&["JWT", "kb-jwt", "KB+JWT", "sd+jwt", "", "application/kb+jwt", "kb+jwt ", " kb+jwt", "kb+jwt;v=1", "kb+JWT"]).to_string()),
                         KbField::Nonce => {
                             if rng.bool() {
                                 json!(format!("{}x", s1.1))
@@ -540,6 +620,12 @@ pub fn gen_c04(rng: &mut Rng, tier: Tier) -> MsgScn {
                 c.base = Base::Pres(4);
                 let k = rng.pick(&["ecD", "edC"]).to_string();
                 c.faults.push(Fault::ResignKb { alg: alg_of(&k), key: k, aud: s1.0.clone(), nonce: s1.1.clone() });
+            }
+            19 if rng.bool() => {
+                // cnf names a key id only: the attacker's KB-JWT brings its own key in its header
+                c.base = Base::Pres(6);
+                let k = rng.pick(&["ecD", "edC"]).to_string();
+                c.faults.push(Fault::ResignKbEmbedJwk { key: k, kid: "holder-key-1".into(), aud: s1.0.clone(), nonce: s1.1.clone() });
             }
             18 => {
                 // KB-JWT of p0 onto the other credential / other presentations
@@ -598,9 +684,21 @@ pub fn gen_c10(rng: &mut Rng, tier: Tier) -> MsgScn {
         }
         // JSON-envelope variants
         c.escapes = rng.chance(1, 4);
+        if rng.chance(1, 8) {
+            c.extra_raw = Some(rng.pick(&["1e999", "-1e999", "\"\\ud83d\"", "\"\\udc00x\"", "123456789012345678901234567890", "[[[[[[[[[[[[[[[[[[[[[[[[[[[[[[[[[[[[[[[[[[[[[[[[[[[[[[[[[[[[[[[[[[[[[[[[[[[[[[[[[[[[[[[[[[[[[[[[[[[[[[[[[[[[[[[[[[[[[[[[[[[[[[[[[[[[[[[[[[[[[[[[[[1]]]]]]]]]]]]]]]]]]]]]]]]]]]]]]]]]]]]]]]]]]]]]]]]]]]]]]]]]]]]]]]]]]]]]]]]]]]]]]]]]]]]]]]]]]]]]]]]]]]]]]]]]]]]]]]]]]]]]]]]]]]]]]]]]]]]]]]]]]]]]]]]]]", "{\"a\":{\"a\":1,\"a\":2}}", "0.000000000000000000000000000000000000000000000000000000000000000000000000000000000000000000000000000000000000000000000000000000000000000001e-400"]).to_string());
+        }
         c.kb_enc = *rng.pick(&[KbEnc::Absent, KbEnc::Null, KbEnc::Empty]);
         if rng.chance(1, 3) {
             c.extra = vec![("unknown_member".into(), json!({"x": [1, 2, 3]})), ("header".into(), json!({"kid": "k1"}))];
+        }
+    }
+    // a presentation that reveals nothing, with one blank disclosure / doubled separator
+    for b in [Base::Cred(0), Base::Pres(0)] {
+        for f in [Fmt::Compact, Fmt::Json] {
+            let mut c = plain(b.clone(), f);
+            c.faults.push(Fault::KeepMask(0));
+            c.faults.push(Fault::GarbageDisclosure { text: String::new(), at: 0 });
+            s.cases.push(c);
         }
     }
     s.check = "C10".into();
